@@ -155,11 +155,12 @@ class Vec:
 class UninitBox:
     """`Box<MaybeUninit<T>>` from `Box::new_uninit()` (the `vec![..]` expansion) and the raw pointer
     read out of it: every field projection is a transparent wrapper; a write through it fills the cell."""
-    __slots__ = ("cell", "init")
+    __slots__ = ("cell", "init", "rc")
 
     def __init__(self, v=None, init=False):
         self.cell = [v]
         self.init = init  # initialised Box<T>: a deref enters the content
+        self.rc = 1  # Rc / Arc handles cloned from this one (never decremented: drops are not tracked)
 
     def __repr__(self):
         return "%s(%r)" % ("Box" if self.init else "UninitBox", self.cell[0])
@@ -567,6 +568,28 @@ class Interp:
             return Slice(raw, 0, len(raw))
         if "static" in k:
             return self.static_ref(k["static"])
+        if "item" in k and "pidx" not in k and fr is not None and fr.gen:
+            # associated constant of a trait, reached through a generic parameter: `S::NAME`
+            item = self.P.norm(k["item"], False)
+            if "::" in item:
+                trait, cname = item.rsplit("::", 1)
+                for gv in fr.gen.values():
+                    tyname = gv[1] if isinstance(gv, tuple) else gv
+                    if not isinstance(tyname, str):
+                        continue
+                    c = self.P.consts.get("<%s as %s>::%s" % (tyname, trait, cname))
+                    if c is not None and ("v" in c or "adt2" in c or "adt" in c):
+                        kk = dict(c)
+                        kk.setdefault("ty", ty)
+                        return self.const({x: kk[x] for x in kk if x in ("ty", "v", "sv", "adt", "adt2", "bytes", "esz", "str")}, fr)
+                    if cname == "TAG" and trait.endswith("EvalSemantics") and tyname.endswith("Semantics"):
+                        # `const TAG: EvalTag = EvalTag::Jq / ::Yq` (enum-typed associated constants are not in the facts)
+                        a = self.P.adts.get("jq::eval::EvalTag")
+                        want = tyname.rsplit("::", 1)[-1].replace("Semantics", "")
+                        if a is not None:
+                            for vi, var in enumerate(a["variants"]):
+                                if var["name"] == want:
+                                    return Adt("jq::eval::EvalTag", vi, want, [])
         if "pidx" in k and "item" in k:
             # promoted constant of a generic function: evaluate its dumped body
             owner = self.P.fns.get(self.P.norm(k["item"], False)) or (fr.fn if fr is not None and fr.fn is not None else None)
@@ -805,6 +828,8 @@ class Interp:
                             return Slice(arr, 0, len(arr))
                     if isinstance(v, Slice):
                         return v
+                    if isinstance(v, (Ref, UninitBox)):
+                        return v  # &T -> &dyn Trait, Box<T> -> Box<dyn Trait>: the value is its own trait object
                     raise Unsupported("unsize of %r" % (v,))
                 if isinstance(v, Ptr):
                     ps = pointee_size(ty)
@@ -1054,6 +1079,13 @@ class Interp:
                         st = P.fns[fid].raw.get("self_ty", "")
                         if st == selfty or P.norm(st, False) == P.norm(selfty, False):
                             return self.run(P.fns[fid], args, depth + 1)
+        if "::" in name:
+            epath, vname_ = name.rsplit("::", 1)
+            a = P.adts.get(epath) or P.adts.get("bin::" + epath)
+            if a is not None and a["kind"] in ("Enum", "Struct"):
+                for vi, var in enumerate(a["variants"]):
+                    if var["name"] == vname_ and len(var["fields"]) == len(args):
+                        return Adt(epath, vi, vname_, list(args))
         return self.std(fr, name, fname, k, args, depth)
 
     def std(self, fr, name, fname, k, args, depth):
